@@ -15,7 +15,9 @@ use std::path::{Path, PathBuf};
 
 type RS = Vec<(PathBuf, PathBuf, CovResult)>;
 mod cobade;
+mod cobbytes;
 mod docs;
+mod mainglue;
 
 fn want_map(rs: &RS, lines: bool, branches: bool, fns: bool) -> BTreeMap<String, CovResult> {
     rs.iter()
@@ -480,6 +482,8 @@ pub fn run(rep: &mut Report) {
     }
     cobade::run(rep);
     docs::run(rep);
+    cobbytes::run(rep);
+    mainglue::run(rep);
 }
 
 fn html_case(rep: &mut Report, rng: &mut Rng, rs: &RS, reqs: &mut Vec<String>, impl_arr: &mut Vec<String>) {
@@ -550,6 +554,7 @@ pub fn replay(rep: &mut Report, case: &serde_json::Value) {
         return cobade::replay(rep, case);
     }
     if case["op"].as_str().map(|o| o.starts_with("c03.docs.")).unwrap_or(false) { return docs::replay(rep, case); }
+    if case["op"].as_str().map(|o| o.starts_with("main.")).unwrap_or(false) { return mainglue::replay(rep, case); }
     rep.notes.push(format!("replay: re-run ./check C03 with the same seed (format {})", case["format"]));
 }
 
